@@ -296,7 +296,8 @@ class World:
         @functools.wraps(real)
         def wrapped(*a, **k):
             p = self.plan
-            if p and "fault" in p and p["fault"]["site"] == "compile":
+            if p and "fault" in p and p["fault"]["site"] == "compile" and p["fault"].get("of", name) == name:
+                # ("of": only compile requests of one kind count, e.g. the Hessian's)
                 self.compile_count += 1
                 f = p["fault"]
                 if self.compile_count == f["k"]:
